@@ -24,6 +24,167 @@ func runC19(c *Ctx) {
 	r19_6(c, "R19.6")
 	r19_7(c, "R19.7")
 	r19_8(c, "R19.8")
+	r19_9(c, "R19.9")
+	r19_10(c, "R19.10")
+}
+
+// R19.9: the listing file's own name is never taken from the sender.
+//
+// In metadata mode an announced entry named like the listing file is skipped:
+// forwarded to nobody, registered for no content request. Without the skip
+// the sender could plant the file the receiver is about to write (or have it
+// written and then overwritten).
+func r19_9(c *Ctx, rule string) {
+	c.R.Rule(rule, "in metadata mode an announced entry whose path is the listing file's name reaches no forward to the disk writer and no registration in receiver.files in its iteration")
+	m := getMetaLoop(c, rule)
+	if m == nil {
+		return
+	}
+	x := c.explorer(m.loop)
+	var nameTests []string
+	eng.Instrs(m.loop, func(in ssa.Instruction) {
+		bo, ok := in.(*ssa.BinOp)
+		if !ok || (bo.Op != token.EQL && bo.Op != token.NEQ) {
+			return
+		}
+		for _, y := range []ssa.Value{bo.X, bo.Y} {
+			if s, isS := eng.ConstString(y); isS && s == ".fsutil-metadata" {
+				k := x.KeyAtEntry(bo)
+				if bo.Op == token.NEQ {
+					k = "!" + k
+				}
+				nameTests = append(nameTests, k)
+			}
+		}
+	})
+	base := c.name(m.loop)
+	if len(nameTests) == 0 {
+		c.R.Fail(rule, base+"/listing-name-skipped", c.pos(m.recv), "the receive loop never compares an announced path with the listing file's name: the sender can announce \".fsutil-metadata\" and have it created in the destination before the listing is written over it")
+		return
+	}
+	as := map[string]bool{}
+	for k, v := range m.pins {
+		if strings.Contains(k, ".fsutil-metadata") {
+			continue
+		}
+		as[k] = v
+	}
+	// (m.pins assume "not the listing name" for the other rules: here the opposite)
+	for k := range as {
+		for _, nt := range nameTests {
+			if strings.TrimPrefix(nt, "!") == strings.TrimPrefix(k, "!") {
+				delete(as, k)
+			}
+		}
+	}
+	for _, nt := range nameTests {
+		neg := strings.HasPrefix(nt, "!")
+		as[strings.TrimPrefix(nt, "!")] = !neg
+	}
+	isUse := func(in ssa.Instruction) bool {
+		if c.P.IsCallTo(in, "fsutil.(*dynamicWalker).update") {
+			a := in.(ssa.CallInstruction).Common().Args
+			if k, ok := a[len(a)-1].(*ssa.Const); ok && k.IsNil() {
+				return false
+			}
+			return true
+		}
+		if mu, ok := in.(*ssa.MapUpdate); ok && isFieldLoad(mu.Map, "fsutil.receiver.files") {
+			return true
+		}
+		return false
+	}
+	ex := c.explorer(m.loop)
+	ex.From = m.recv
+	ex.Assume = as
+	ex.Barrier = func(in ssa.Instruction, st *eng.State) bool { return in == ssa.Instruction(m.recv) }
+	ex.Target = func(in ssa.Instruction, st *eng.State) bool { return isUse(in) }
+	ex.StopAtTarget = true
+	h := ex.Run()
+	switch {
+	case ex.Exhausted:
+		c.R.Undecided(rule, base+"/listing-name-skipped", c.pos(m.recv), "state limit")
+	case len(h) > 0:
+		c.R.Fail(rule, base+"/listing-name-skipped", c.pos(h[0].Instr), "an announced entry named like the listing file is forwarded or registered; path "+eng.BlockTrace(m.loop, h[0].Trace))
+	default:
+		c.R.OK(rule, base+"/listing-name-skipped", c.pos(m.recv), "an entry named like the listing file reaches no forward and no registration")
+	}
+}
+
+// R19.10: the pending-ancestors stack is a stack.
+//
+// The replay rules (R19.5, R19.8) speak of push, pop, peek and clear by name;
+// what the four do is small enough to read: push appends its argument, pop
+// and clear shrink the list, peek returns its last element, and the unwinding
+// loop pops (it makes progress).
+func r19_10(c *Ctx, rule string) {
+	c.R.Rule(rule, "stack.push stores append(items, v); pop stores a shorter re-slice of items; clear stores items[:0] or nil; peek returns items[len-1]; the unwinding loop of the receive loop contains a pop")
+	m := getMetaLoop(c, rule)
+	if m == nil {
+		return
+	}
+	find := func(suffix string) *ssa.Function {
+		var out *ssa.Function
+		eng.Instrs(m.loop, func(in ssa.Instruction) {
+			if call, ok := in.(*ssa.Call); ok {
+				n := c.P.CalleeName(call)
+				if strings.Contains(n, "stack") && strings.HasSuffix(n, suffix) {
+					if f := eng.EffCallee(call); f != nil {
+						out = f
+					}
+				}
+			}
+		})
+		return out
+	}
+	itemsStores := func(f *ssa.Function) []*ssa.Store {
+		var out []*ssa.Store
+		eng.InstrsShallow(f, func(in ssa.Instruction) {
+			if st, ok := in.(*ssa.Store); ok {
+				if fa, isFA := st.Addr.(*ssa.FieldAddr); isFA && strings.HasSuffix(eng.FieldOwnerName(fa.X.Type(), fa.Field), ".items") {
+					out = append(out, st)
+				}
+			}
+		})
+		return out
+	}
+	push, pop, clear := find(".push"), find(".pop"), find(".clear")
+	if push == nil || pop == nil || clear == nil {
+		c.R.Undecided(rule, c.name(m.loop)+"/stack-operations", c.pos(m.recv), "the pending-ancestors list is not kept through stack.push/pop/clear: shape not interpreted")
+		return
+	}
+	okPush := false
+	for _, st := range itemsStores(push) {
+		if call, ok := st.Val.(*ssa.Call); ok && c.P.CalleeName(call) == "builtin:append" {
+			if c.DerivesFrom(call.Call.Args[1], func(v ssa.Value) bool { _, isP := v.(*ssa.Parameter); return isP }, 5) {
+				okPush = true
+			}
+		}
+	}
+	c.R.Check(okPush, rule, "fsutil.stack.push/appends", c.P.Pos(push.Pos()), "push appends its argument", "stack.push does not append its argument to the list: an unselected directory is never kept, a selected file below it arrives without its parent")
+	shrinks := func(f *ssa.Function) bool {
+		for _, st := range itemsStores(f) {
+			if sl, ok := st.Val.(*ssa.Slice); ok && sl.High != nil {
+				return true
+			}
+			if k, ok := st.Val.(*ssa.Const); ok && k.IsNil() {
+				return true
+			}
+		}
+		return false
+	}
+	c.R.Check(shrinks(pop), rule, "fsutil.stack.pop/shrinks", c.P.Pos(pop.Pos()), "pop drops the last element", "stack.pop does not shorten the list: the unwinding loop of the receive loop never ends")
+	c.R.Check(shrinks(clear), rule, "fsutil.stack.clear/empties", c.P.Pos(clear.Pos()), "clear empties the list", "stack.clear does not empty the list: replayed ancestors are replayed again for every later entry")
+	// the unwinding loop pops
+	popInCycle := false
+	eng.Instrs(m.loop, func(in ssa.Instruction) {
+		if call, ok := in.(*ssa.Call); ok && eng.EffCallee(call) == pop && call.Parent() != pop {
+			if eng.InCycle(call.Block()) {
+				popInCycle = true
+			}
+		}
+	})
+	c.R.Check(popInCycle, rule, c.name(m.loop)+"/unwinding-pops", c.pos(m.recv), "the unwinding loop pops", "no pop of the pending-ancestors stack lies in a loop: the unwinding loop inspects the same top element forever")
 }
 
 // R19.8: the pending-ancestors stack is unwound for every entry.
